@@ -13,8 +13,9 @@ Init == A!Init /\ hist = <<>> /\ sentTo = [k \in MCKeys |-> <<>>]
 Announced(k) == gen[k] > 0
 Live(k) == A!Lookup(k) # 0
 
+Gone == hist # <<>> /\ hist[Len(hist)].m = "disconnect"
 Msg ==
-  /\ Len(hist) < MaxMsgs
+  /\ Len(hist) < MaxMsgs /\ ~Gone
   /\ \/ \E k \in MCKeys : /\ (IF Live(k) THEN ~table[A!Lookup(k)].open ELSE TRUE) /\ gen[k] < 2 /\ A!Hello(k)
                           /\ hist' = Append(hist, [m |-> "hello", k |-> k, n |-> 0]) /\ sentTo' = [sentTo EXCEPT ![k] = <<>>]
      \/ \E k \in MCKeys : /\ Announced(k) /\ LET n == Len(hist) + 1 IN
@@ -32,8 +33,13 @@ Msg ==
                              /\ UNCHANGED <<gen, ended>>
                              /\ hist' = Append(hist, [m |-> "quit", k |-> k, n |-> n])
                              /\ sentTo' = [sentTo EXCEPT ![k] = Append(@, c)]
+     \* the agent goes away: every connection still in the table ends, nothing else can follow
+     \/ /\ Len(hist) >= 1 /\ A!Disconnect
+        /\ hist' = Append(hist, [m |-> "disconnect", k |-> 0, n |-> 0]) /\ UNCHANGED sentTo
+\* ends[k]: the service of the latest announcement of k has seen the end of its stream (EOF message or disconnect)
 Emit == /\ Len(hist) >= 2
-        /\ PrintT(<<"SCN", ToJson([msgs |-> hist, delivered |-> delivered, echoed |-> echoed])>>)
+        /\ PrintT(<<"SCN", ToJson([msgs |-> hist, delivered |-> delivered, echoed |-> echoed,
+                                   ends |-> [k \in MCKeys |-> gen[k] > 0 /\ <<k, gen[k]>> \in ended]])>>)
         /\ UNCHANGED <<table, gen, delivered, echoed, ended, hist, sentTo>>
 Next == Msg \/ Emit
 Spec == Init /\ [][Next]_<<table, gen, delivered, echoed, ended, hist, sentTo>>
@@ -46,5 +52,8 @@ Isolation == \A k \in MCKeys : \A i \in 1..Len(echoed[k]) : echoed[k][i].k = k
 OpenSince(k) == \E i \in 1..Len(hist) : /\ hist[i].m = "hello" /\ hist[i].k = k
                                         /\ \A j \in (i + 1)..Len(hist) : hist[j].k = k => hist[j].m = "data"
 NoLossWhileOpen == \A k \in MCKeys : OpenSince(k) => delivered[k] = sentTo[k]
-Inv == InOrderExactlyOnce /\ Isolation /\ NoLossWhileOpen
+\* the agent disconnecting ends exactly the connections that were still in the table, all of them
+AllEndedWhenGone == Gone => /\ table = <<>>
+                            /\ \A k \in MCKeys : gen[k] > 0 => <<k, gen[k]>> \in ended
+Inv == InOrderExactlyOnce /\ Isolation /\ NoLossWhileOpen /\ AllEndedWhenGone
 =============================================================================
